@@ -74,6 +74,15 @@ func NewRec(prop, unit, rule string, assumptions ...string) *Rec {
 
 func (r *Rec) SetExhaustive(b bool) { r.mu.Lock(); r.res.Exhaustive = b; r.mu.Unlock() }
 
+// AddEvaluations counts inputs that were tried inside an aggregate case (a chunk of an enumeration).
+func (r *Rec) AddEvaluations(n int64) {
+	r.mu.Lock()
+	if !r.failed {
+		r.res.Evaluations += n
+	}
+	r.mu.Unlock()
+}
+
 // Exclude counts an input class that the generator avoids by construction.
 func (r *Rec) Exclude(class string) {
 	r.mu.Lock()
